@@ -25,6 +25,36 @@ CHECKS = {
     ),
 }
 
+CHECKS["C05"] = dict(
+    module="WALQueue",
+    technique="TLA+ model checking of the store-level queue model (TLC, kill between any two stores) + trace validation of the real pkg/queue: every mapped-page store observed, crash image after every store recovered by the real code, gated concurrent appenders",
+    text=("The WALQueue module has one action per store into a memory-mapped page; TLC explores every interleaving of "
+          "calls and a process kill between any two stores (4M states) and checks that every successfully appended, "
+          "unacknowledged message reads back byte for byte from memory and from the durable image, with dense sequence "
+          "numbers. The real queue runs behind a wrapping page factory: each store is recorded where it happens and "
+          "must be exactly the store the specification expects next; the directory image after every single store is "
+          "materialised, reopened by the real code, appended to and compared with the model; concurrent appenders are "
+          "interleaved by a seeded gate inside the append. Crash points and interleavings are what the property "
+          "quantifies over, so exhaustive exploration of the model plus store-exact conformance is the right level."),
+    note=("Trusted: TLC, Json module, the page-factory wrapper and image materialiser (a kill keeps exactly the completed "
+          "MAP_SHARED stores; no power loss / torn stores), xxhash payload comparison. Bounds: 2 threads, 2 groups, 3 "
+          "appends, 1 kill in the model; real pages are 128MB so roll-over is exercised with 50-80MB messages."),
+    ref="DESIGN.md section 7 C05",
+)
+CHECKS["C06"] = dict(
+    module="WALQueue",
+    technique="TLA+ model checking (TLC) of consumer-group positions, Sync and GC + trace validation of long random API histories of the real FanOutQueue with full state projection after every call",
+    text=("Same module as C05: consume / ack / set-consumed / sync / gc / create / stop / reopen are actions with their "
+          "stores; TLC checks acknowledged <= consumed <= appended, the queue-wide position moving only forward and never "
+          "beyond the smallest group position at that moment, and readability of everything above it, over all histories "
+          "within bounds. The real FanOutQueue is driven through seeded histories (3 groups, page roll-over, stop/reopen); "
+          "after every call the full projection (positions of queue and groups, Get of every live sequence) must equal "
+          "the model state and every store must be the expected one."),
+    note=("Trusted as C05. Explicit index resets: only the forward reset is modelled (the property excludes resets); "
+          "operations of one history are sequential (the code serialises consume/ack on a group by its lock)."),
+    ref="DESIGN.md section 7 C06",
+)
+
 NOT_YET = {
 }
 
